@@ -61,6 +61,22 @@ def run(c):
             cases.append((params, spec))
     recs = pe.run_cases(c, cases, "random paced histories")
     pe.validate(c, "C03", recs)
+    # soundness does not depend on pacing: bursts that build a nested tree below a directory the library has not seen yet
+    # (it learns about the contents from its own walk of the new directory): every event must still name something real
+    cases = []
+    bursts = [[["mkdir", "c"], ["mkdir", "c/d"], ["creat", "c/d/f"], ["creat", "c/g"], ["drain"]],
+              [["makedirs", "c/d"], ["creat", "c/d/f"], ["mkdir", "c/d/ab"], ["creat", "c/d/ab/f"], ["drain"]],
+              [["mkdir", "c"], ["mkdir", "c/d"], ["mkdir", "c/d/ab"], ["creat", "c/d/ab/f"], ["write", "c/d/ab/f"], ["drain"], ["chmod", "c/d/ab/f"], ["drain"]]]
+    # (creation-only bursts.  A burst that also renames the fresh directory and goes on creating below the new name makes
+    # the library's late walk of the destination announce, as synthetic moved events, entries that never existed under
+    # the old name: an observation outside the pacing condition, recorded in DESIGN section 8, not claimed here.)
+    for k, ops in enumerate(bursts):
+        for start in ("empty", "small"):
+            params = dict(pe.START[start], ops=ops, recursive=True, paced=False, final_probe=False)
+            for spec in [("prio", "driver"), ("prio", "library"), ("random", c.seed + k, 0.8), ("random", c.seed + k + 50, 0.5)]:
+                cases.append((params, spec))
+    recs = pe.run_cases(c, cases, "unpaced bursts building nested trees (soundness only)")
+    pe.validate(c, "C03", recs)
     # operations on a directory after it was moved out of the tree (its kernel watch is kept: known finding D7)
     cases = []
     for k, (tail, rec) in enumerate([([["owrite", "z/a"]], True), ([["ocreat", "z/n"], ["drain"], ["ounlink", "z/a"]], True),
